@@ -56,6 +56,17 @@ def run(ctx, rep):
               'percent_point is not called with the two separate draws', construct='percent_point arguments')
     st = c._parent
     uvar = st.targets[0].id if isinstance(st, ast.Assign) and isinstance(st.targets[0], ast.Name) else None
+    if uvar is not None:
+        redefs = [a_ for a_ in walk_no_nested(fn.node) if isinstance(a_, (ast.Assign, ast.AugAssign)) and a_ is not st
+                  and any(isinstance(t_, ast.Name) and t_.id == uvar for t_ in (a_.targets if isinstance(a_, ast.Assign) else [a_.target]))]
+        vdefs = [a_ for a_ in walk_no_nested(fn.node) if isinstance(a_, (ast.Assign, ast.AugAssign)) and a_.lineno > c.lineno
+                 and any(isinstance(t_, ast.Name) and ok_args and t_.id == a[1].id for t_ in (a_.targets if isinstance(a_, ast.Assign) else [a_.target]))]
+        if redefs or vdefs:
+            x_ = (redefs or vdefs)[0]
+            rep.bad('D1.wiring', fn, x_, f'`{short(x_, 60)}` changes {"the conditional inverse" if redefs else "the conditioning variate"} after u = percent_point(c, v) was computed: the returned pair '
+                    'is no longer (C^-1(c | v), v)', construct='u and v unchanged after the inverse')
+        else:
+            rep.ok('D1.wiring', fn, c, 'u and v reach the result unchanged', construct='u and v unchanged after the inverse')
     r = rets[-1].value
     stack = r if isinstance(r, ast.Call) and prog.resolve(fn.module, r.func) == 'numpy.column_stack' else None
     if stack is None or not stack.args or not isinstance(stack.args[0], (ast.Tuple, ast.List)) or len(stack.args[0].elts) != 2:
